@@ -73,6 +73,81 @@ def long_instruction_trace():
     return ops
 
 
+INT_SRC = """#! mrasm
+ JR main
+isr:
+ INC R2
+ RETI
+main:
+ LDSP 0xEF
+ MOV (0xF9), 1
+ EI
+ .DB %s
+ NOP
+ INC R1
+ STOP
+"""
+
+
+def bytes_int_trace(byte_range):
+    """every opcode with a key interrupt accepted at its end: the assembly step covers the instruction AND the interrupt entry"""
+    ops = [{"op": "new"}]
+    for b in byte_range:
+        for b2 in ([0x10] if b < 240 else [0x10, 0x05, 0x2C, 0x46, 0x01, 0x70]):
+            tail = "%d, 77, %d, 130, 5" % (b, b2) if (b >= 240 and (b >> 2) & 3 >= 2 and b & 3 == 3) else "%d, %d, 130, 5, 2" % (b, b2)
+            for when in (0, 1):
+                ops.append({"op": "mode", "v": "Assembly"})
+                ops.append({"op": "load_asm", "src": INT_SRC % tail})
+                ops.append({"op": "key_clock", "n": 4})          # JR, LDSP, MOV, EI: at the boundary before the byte
+                if when == 1:
+                    ops += [{"op": "mode", "v": "Real"}, {"op": "key_clock", "n": 2}, {"op": "mode", "v": "Assembly"}]
+                ops.append({"op": "key_int"})
+                ops.append({"op": "key_clock", "n": 4})
+    return ops
+
+
+STOP_SRC = """#! mrasm
+ JR main
+isr:
+ INC R2
+ RETI
+main:
+ LDSP 0xEF
+ MOV (0xF9), 1
+ %s
+ INC R0
+ STOP
+ INC R0
+ PUSH R0
+ .DB %s
+ INC R0
+ STOP
+ INC R0
+ STOP
+"""
+
+
+def stop_continue_trace():
+    """STOP, continue key, then steps: the step after the continue key finishes the STOP - never more; in every mode combination"""
+    ops = [{"op": "new"}]
+    for ei in ("EI", "NOP"):
+        for second in ("2", "0xF4, 0x01", "0xFB, 7, 0x01"):       # a one-byte filler, STOP as the second byte of a two-byte form (with / without constant)
+            for variant in range(6):
+                ops.append({"op": "mode", "v": "Assembly" if variant % 2 == 0 else "Real"})
+                ops.append({"op": "load_asm", "src": STOP_SRC % (ei, second)})
+                ops.append({"op": "key_clock", "n": 6 if variant % 2 == 0 else 60})     # runs into the first STOP
+                if variant >= 4:
+                    ops.append({"op": "key_int"})
+                ops.append({"op": "continue"})
+                if variant in (2, 3):
+                    ops += [{"op": "mode", "v": "Real"}, {"op": "key_clock", "n": 1}]
+                ops.append({"op": "mode", "v": "Assembly"})
+                for _ in range(3):
+                    ops.append({"op": "key_clock", "n": 3})
+                    ops.append({"op": "continue"})
+    return ops
+
+
 def bytes_trace(byte_range, all_seconds=False, rng=None):
     ops = [{"op": "new"}, {"op": "mode", "v": "Assembly"}]
     for b in byte_range:
@@ -116,6 +191,9 @@ def run(tier, seed, replay):
         for b in range(240, 256, 2):
             traces.append(vlib.run_scenario(bytes_trace(range(b, b + 2), all_seconds=True), "c11-bytes-all-%d" % b)[0])
     traces.append(vlib.run_scenario(long_instruction_trace(), "c11-long")[0])
+    traces.append(vlib.run_scenario(bytes_int_trace(range(0, 128)), "c11-int-a")[0])
+    traces.append(vlib.run_scenario(bytes_int_trace(range(128, 256)), "c11-int-b")[0])
+    traces.append(vlib.run_scenario(stop_continue_trace(), "c11-stop")[0])
     results = vlib.validate_traces(traces, cfg="TraceMachine")
     nev = ic.report_trace_results(v, traces, results, "asmtrace", "assembly-step")
     cov = {
@@ -125,6 +203,6 @@ def run(tier, seed, replay):
         "rule": "TLC: the code-shaped two-phase loop walked next to the declarative definition from every state of the edge-by-edge runs of the "
                 "program suite (key interrupt at any point) and from a boundary with every byte at PC (every second byte for the two-byte class); "
                 "real machine: for every offset j the program is clocked j single edges and then stepped in assembly mode (each step's edge count "
-                "measured against a single-stepped clone; watchdog for non-return), all 256 bytes at PC (two-byte class with second byte = prefix and sampled / all second bytes), DIV by 1 / MUL with a key interrupt pending before / inside the instruction, mode switches; validated by TraceMachine",
+                "measured against a single-stepped clone; watchdog for non-return), all 256 bytes at PC (two-byte class with second byte = prefix and sampled / all second bytes), DIV by 1 / MUL with a key interrupt pending before / inside the instruction, every opcode with a key interrupt accepted at its end, STOP + continue key + steps in every mode combination, mode switches; validated by TraceMachine",
     }
     return v.finish("model_checking", cov, ["TLC", "an edge that changes nothing is unobservable: the step of a stuck sequencer may issue it"])
